@@ -429,6 +429,16 @@ class World:
                         others_.pop()          # (the request that freed the key itself)
                     t_handed = max([rec_['t_call']] + [x for x in raw if x < t_free - 1e-9] + others_)
                     how = 'issued-while-its-key-was-being-freed' if t_free - t_handed < 0.05 else 'after-waiting-in-the-queue'
+                    # another mechanism: a request with the same key went on the wire at the very moment its caller gave up (the
+                    # transmit thread had looked at the give-up mark just before): nobody cleans it up, it occupies the key until
+                    # the peer answers it
+                    def wkey_(v_):
+                        return {'change-target': ('change', json.dumps(float(v_['tok']))), 'change-p': ('change', json.dumps(v_['tok'])),
+                                'ping': ('ping', f'tok{v_["tok"]}'), 'unknown': ('xyz', json.dumps(v_['tok']))}.get(v_['kind'])
+                    zombies = [k2 for k2, v in results.items() if k2 != key and v['kind'] == rec_['kind'] and v.get('error', ('',))[0] == 'TimeoutError'
+                               and wire.get(wkey_(v)) is not None and wire[wkey_(v)] >= v['t_ret'] - 0.05 and wire[wkey_(v)] <= t_sent]
+                    if how == 'after-waiting-in-the-queue' and zombies:
+                        how = 'behind-a-request-sent-when-its-caller-gave-up'
                     r.violation(f'C11/request-held-back-although-its-key-was-free/{how}',
                                 f'caller {key} ({rec_["kind"]}) called at {rec_["t_call"] - self.D.T0:.2f}, the last request with the same key ended at '
                                 f'{max(blockers, default=rec_["t_call"]) - self.D.T0:.2f}, but its request went on the wire only at {t_sent - self.D.T0:.2f}', case)
@@ -493,7 +503,13 @@ class World:
                         others = [k2 for k2, v in results.items() if k2 != key and v['kind'] == rec_['kind']
                                   and v['t_call'] < rec_['t_ret'] and v.get('t_ret', 1e99) > rec_['t_call']]
                         if not others:
-                            r.violation('C11/request-never-sent', f'caller {key} ({rec_["kind"]}) timed out after {dt:.2f} s, its request never reached the peer '
+                            # mechanism: was it issued while a request with the same key, whose caller had just given up, still
+                            # occupied the key (up to one receive attempt until the clean-up)?  then it is the lost wake-up between the
+                            # transmit and the receive thread - with update traffic only (no matched reply, no heartbeat) for ever
+                            near = any(k2 != key and v['kind'] == rec_['kind'] and v.get('error', ('',))[0] == 'TimeoutError' and
+                                       rec_['t_call'] - 1.5 <= v.get('t_ret', -1) <= rec_['t_call'] + 0.05 for k2, v in results.items())
+                            r.violation('C11/request-never-sent' + ('/issued-while-its-key-was-being-freed' if near else ''),
+                                        f'caller {key} ({rec_["kind"]}) timed out after {dt:.2f} s, its request never reached the peer '
                                         f'and no other request with the same key was outstanding during its wait', case)
                             return
                     done = [t for t, a, i, pl in state['replied'] if pl == want or i == f'tok{tok}']
